@@ -41,7 +41,7 @@ CONSTANTS
     OutFaults,    \* subset of {"none","prepFail"}
     Bodies,       \* subset of {"plain","interrupt","discards","forces","nestSame","nestOther"}
     OutResults,   \* outcomes an output body may yield
-    Ctl,          \* subset of {"discard","force","data","playdata"}
+    Ctl,          \* subset of {"discard","force","data","playdata","mutate"}
     Ends,         \* subset of {"ret","raise","interrupt"}
     Classes,      \* set of class parameter records (see ClassOK)
     Draws,        \* subset of {"low","high"}: the uniform draw relative to a fractional rate
@@ -49,7 +49,7 @@ CONSTANTS
     SaveFails,    \* subset of BOOLEAN
     Toggles,      \* how many enable/disable calls a history may contain
     StartEnabled, \* set of initial values of recording_enabled
-    MaxSteps, MaxRuns, MaxRecs,
+    MaxSteps, MaxPSteps, MaxRuns, MaxRecs,   \* steps per recorded run / per free-mode replay, runs, recordings
     Modes,        \* subset of {"same","edit","free"}
     EditKinds,    \* subset of {"sent","drop","add","swap","result","raise"}
     InOpts,       \* sequence of option records for free-mode input calls
@@ -204,8 +204,12 @@ CallOutput(o, v, res, f) ==
        /\ ev' = [Ev0 EXCEPT !.kind = "out", !.step = st, !.seen = res, !.bodyRuns = 1, !.calls = S3.calls,
                             !.icpt = icpt, !.keys = DOMAIN S3.r.data]
 
+\* "mutate": the program mutates, in place, every value it got from / handed to intercepted calls so far.  Without
+\* copy-on-interception that breaks the documented assumption, so it is only generated when nothing is being
+\* recorded or the class copies; then it must have no effect on the recording (C11).
 Control(k) ==
     /\ ctl.phase = "op" /\ ctl.steps < MaxSteps
+    /\ k = "mutate" => (~InRecMode(rec) \/ rec.cls.copyOn)
     /\ LET S0 == [r |-> rec, c |-> cas, calls |-> <<>>]
            S1 == CASE k = "discard" -> Disc(S0)
                    [] k = "force"   -> Forc(S0)
@@ -363,7 +367,7 @@ NextSteps ==
 PStep(st) ==
     /\ ctl.phase = "play" /\ ~ctl.failed
     /\ st \in NextSteps
-    /\ ctl.mode = "free" => ctl.steps < MaxSteps
+    /\ ctl.mode = "free" => ctl.steps < MaxPSteps
     /\ LET d == Stored.data IN
        CASE st.kind = "in" ->
               LET c    == <<st.alias, st.arg>>
@@ -497,7 +501,7 @@ SameOutputs ==
 
 \* C03: differences between recorded and replayed outputs sit exactly at the affected entries
 SentSeq(p, o) == LET q == SelectSeq(p, LAMBDA s : s.kind = "out" /\ s.alias = o) IN [i \in 1 .. Len(q) |-> q[i].sent]
-AllOutKeys == {OutKey(o, n) : o \in OutAliases, n \in 1 .. (MaxSteps + 1)}
+AllOutKeys == {OutKey(o, n) : o \in OutAliases, n \in 1 .. (MaxSteps + MaxPSteps + 1)}
 Affected(p, pe, q, qe) ==
     {k \in AllOutKeys :
         LET a == SentSeq(p, k[2])
